@@ -162,6 +162,8 @@ theorem C08_router_sound_partial (m : OModel Rat) (pbs : List (Option (Rat × Ra
                 split at htm
                 · simp at htm
                 · rename_i hin
+                  split at htm
+                  · simp at htm
                   simp only [Option.some.injEq, ORes.ok.injEq] at htm
                   subst htm
                   num_simp at hin
@@ -181,6 +183,8 @@ theorem C08_router_sound_partial (m : OModel Rat) (pbs : List (Option (Rat × Ra
                   · cases heq
                     split at htm
                     · simp at htm
+                    split at htm
+                    · simp at htm
                     simp only [Option.some.injEq, ORes.ok.injEq] at htm
                     subst htm
                     refine ⟨iv.max, mk _ ht, hmm, Rat.le_refl, ?_, fun l hl => hlo l hl, ?_⟩
@@ -197,6 +201,8 @@ theorem C08_router_sound_partial (m : OModel Rat) (pbs : List (Option (Rat × Ra
                 split at htm
                 · simp at htm
                 · rename_i hin
+                  split at htm
+                  · simp at htm
                   simp only [Option.some.injEq, ORes.ok.injEq] at htm
                   subst htm
                   num_simp at hin
@@ -214,6 +220,8 @@ theorem C08_router_sound_partial (m : OModel Rat) (pbs : List (Option (Rat × Ra
                   split at heq
                   · simp at heq
                   · cases heq
+                    split at htm
+                    · simp at htm
                     split at htm
                     · simp at htm
                     simp only [Option.some.injEq, ORes.ok.injEq] at htm
@@ -363,11 +371,17 @@ theorem C08_fast_path_counterexample_props_linear :
 /-- `x ∈ [0,10]`, props-level `x ≤ 3` and `x ≥ 5` (infeasible); `maximize(x)` -/
 def mOpposite : OModel Rat := { vars := [fl 0 10], posts := [.cmp .le (.v 0) (.c 3), .cmp .ge (.v 0) (.c 5)] }
 
-/-- **counterexample** `fast-path-ignores-opposite-bounds`: maximisation combines the UPPER bounds
-only; the answer `x = 3` violates `x ≥ 5` (the model has no solution at all; propagation fails). -/
-theorem C08_fast_path_counterexample_opposite :
-    fastAnswer (entry mOpposite [none] true 0) (fun a => a == [3] && !feasible mOpposite a) = true := by
-  decide +kernel
+/-- **repaired** (was the counterexample `fast-path-ignores-opposite-bounds`: maximisation
+combined the UPPER bounds only and answered `x = 3`, which violates `x ≥ 5`): the candidate is now
+checked against the bounds of the other side as well, the metadata stage falls back to the
+propagation run, which fails on this model, and both routers decline — `maximize` and `minimize`
+go to the search path (which reports `NoSolution`). -/
+theorem C08_fast_path_opposite_bounds_decline :
+    (match route mOpposite [none] true 0 with | .declined .optimizerFailure => true | _ => false) = true
+      ∧ (match route mOpposite [none] false 0 with | .declined .optimizerFailure => true | _ => false) = true
+      ∧ (match entry mOpposite [none] true 0 with | .search => true | _ => false) = true
+      ∧ (match entry mOpposite [none] false 0 with | .search => true | _ => false) = true := by
+  refine ⟨?_, ?_, ?_, ?_⟩ <;> decide +kernel
 
 /-- `x ∈ [0,10]`, props-level `equals(4, x)` — constant on the LEFT; `maximize(x)` -/
 def mShape : OModel Rat := { vars := [fl 0 10], posts := [.cmp .eq (.c 4) (.v 0)] }
@@ -401,12 +415,15 @@ theorem C08_fast_path_invalid_model_rejected :
       ∧ (match route mReversed [] true 0 with | .fast _ => true | _ => false) = true := by
   constructor <;> decide +kernel
 
-/-- `x ∈ [0,10]`, props-level `x ≤ -5` (infeasible, propagation fails); `maximize(x)` -/
-def mReroute : OModel Rat := { vars := [fl 0 10], posts := [.cmp .le (.v 0) (.c (-5))] }
+/-- `x ∈ [0,10]`, props-level `x ≤ 20` and `float_lin_le([2], [x], -8)` (infeasible, propagation
+fails); `maximize(x)` -/
+def mReroute : OModel Rat := { vars := [fl 0 10], posts := [.cmp .le (.v 0) (.c 20), .plin false [2] [0] (-8)] }
 
-/-- **counterexample** `fast-path-max-falls-into-min`: `try_maximize` declines (optimizer failure),
-`maximize` calls `minimize(opposite)`, whose router call MINIMISES `x`: there no lower bound is
-registered, so the answer is the domain minimum `x = 0` — on a model without solutions. -/
+/-- **counterexample** `fast-path-max-falls-into-min`: `try_maximize` declines (the registered upper
+bound 20 lies outside the domain, the propagation run fails: optimizer failure), `maximize` calls
+`minimize(opposite)`, whose router call MINIMISES `x`: there no lower bound is registered, so the
+answer is the domain minimum `x = 0` — on a model without solutions.  (The former witness,
+`x ≤ -5` alone, is repaired: the minimisation now sees that 0 misses the upper bound −5.) -/
 theorem C08_fast_path_counterexample_reroute :
     (match route mReroute [none] true 0 with | .declined .optimizerFailure => true | _ => false) = true
       ∧ fastAnswer (entry mReroute [none] true 0) (fun a => a == [0] && !feasible mReroute a) = true := by
